@@ -11,6 +11,8 @@ from vlib import hexs, unhexs
 
 LOOP_COQ_FILES = ["Bytes.v", "ParserModel.v", "BuilderModel.v", "ConnModel.v", "CommandModel.v", "MpdTokenizer.v",
                   "LoopModel.v", "ServerModel.v", "CallerModel.v", "LoopProofs.v", "LoopSpec.v", "LoopSpecProofs.v"]
+# C01 / C04 / C05 also state the refinement theorems (executable system -> abstract system)
+REFINE_COQ_FILES = ["DriverLoop.v", "Grammar.v", "ParserProofs.v", "ConnProofs.v", "RoundTripProofs.v", "LoopRefine.v", "LoopRefineProofs.v"]
 
 SUBSYSTEMS = ["database", "update", "stored_playlist", "playlist", "player", "mixer", "output", "options", "partition",
               "sticker", "subscription", "message", "neighbor", "mount", "fingerprint", "Player", "x-y_z",
@@ -312,6 +314,50 @@ def gen_session(rng, n_steps, faults=False, cancel=True, with_drop=False, pauses
         else:
             labels.append(rng.choice(["S*", "D0"]))
     return labels, info, rid
+
+
+def gen_fragment_session(rng, n_steps, tricky=True):
+    """A random schedule inside the fragment of the refinement theorems (Props/C05.v c05_exec_refines): single echo requests
+    (plain words, arguments that need quoting, non-ASCII), changes, server reads, deliveries of any size, clock advances.
+    -> (labels, info, number of requests)"""
+    labels = ["D0"]
+    info = {"requests": {}, "cancelled": set(), "notified": [], "fault": None, "dropped": False}
+    rid = 0
+    words = ["status", "stats", "currentsong", "echo", "ping", "play", "next", "outputs", "playlistinfo", "lsinfo"]
+    args = ["a", "x y", "it's", 'say "hi"', "back\\slash", "\u00e4\u00f6", "\u65e5\u672c", "", "tab\there", "OK", "list_OK", "ACK [5@0] {} x", "binary: 3", "idle x"]
+    if not tricky:
+        args = ["a", "b1", "OK", "list_OK", "idle", "noidle", "x-y_z", "0"]      # no quoting needed: the echoed line is name + arguments
+    for _ in range(n_steps):
+        r = rng.random()
+        if r < 0.30:
+            rid += 1
+            sp = spec(rng.choice(words), *[rng.choice(args) for _ in range(rng.choice([0, 0, 1, 2]))]) if rng.random() < 0.7 else spec("echo", f"r{rid}")
+            labels.append(f"c{rid}:{sp}")
+            info["requests"][rid] = ("c", [sp])
+        elif r < 0.44:
+            name = rng.choice(SUBSYSTEMS)
+            labels.append("N:" + hexs(name))
+            info["notified"].append(name)
+        elif r < 0.64:
+            labels.append(rng.choice(["S", "S*", "S*"]))
+        elif r < 0.86:
+            labels.append(rng.choice(["D0", "D0", "D1", "D2", "D3", "D7", "D20"]))
+        else:
+            labels.append("t" + str(rng.choice([1, 30, 50, 99, 100, 101, 250, 31000])))
+    return labels, info, rid
+
+
+def fragment_membership(ctx, scheds):
+    """How many of the schedules lie inside the fragment the refinement theorems quantify over (decided by the extracted
+    [classify] / [good] of coq/LoopRefine.v, case kind loopfrag).  -> (count inside, {reason: count} for the first label outside)"""
+    outs = ctx.run_model([" ".join(["loopfrag", s.cspec, s.conf] + s.labels) for s in scheds])
+    inside = sum(1 for o in outs if o == "in")
+    why = {}
+    for o in outs:
+        if o != "in":
+            k = o[4:5] if o.startswith("out:") and len(o) > 4 and o[4:] not in ("password", "first-label", "short") else o[4:]
+            why[k] = why.get(k, 0) + 1
+    return inside, why
 
 
 # ------------------------------------------------------------------------------- oracles on the implementation's trace
